@@ -29,8 +29,101 @@ def more_multiline():
                 yield pre + "x " + t + " y\n"
 
 
+CODEC_FNS = {
+    "remove_backspaces": ("_ParserHelper__remove_backspaces_from_text", "fun s => Some (remove_char c_bs None s)"),
+    "resolve_noops": ("resolve_noops_from_text", "fun s => Some (remove_char c_noop None s)"),
+    "resolve_escapes": ("_ParserHelper__resolve_escapes_from_text", "fun s => Some (resolve_escapes None s)"),
+    "resolve_backspaces": ("resolve_backspaces_from_text", "resolve_bs []"),
+    "replacement_markers": ("_ParserHelper__resolve_replacement_markers_from_text", "replace_markers false MNormal None"),
+    "references": ("_ParserHelper__resolve_references_from_text", "replace_markers true MNormal None"),
+    "remove_all": ("remove_all_from_text", "remove_all"),
+    "resolve_all": ("resolve_all_from_text", "resolve_all"),
+}
+
+
+def _codec_call(job):
+    """(function name, string) -> result | None (ValueError / IndexError / assertion) | 'HANG' (no answer within 50 ms)"""
+    import signal
+    from pymarkdown.general.parser_helper import ParserHelper as PH
+    name, strs = job
+    f = getattr(PH, CODEC_FNS[name][0])
+
+    class TO(BaseException):
+        pass
+
+    def alarm(*a):
+        raise TO()
+    signal.signal(signal.SIGALRM, alarm)
+    out = []
+    for s in strs:
+        signal.setitimer(signal.ITIMER_REAL, 0.05)
+        try:
+            out.append(f(s))
+        except (ValueError, IndexError, AssertionError):
+            out.append(None)
+        except TO:
+            out.append("HANG")
+        finally:
+            signal.setitimer(signal.ITIMER_REAL, 0)
+    return out
+
+
+def _codec(ctx):
+    import itertools
+    import random
+    alpha = ["a", "\\", "\x08", "\x07", "\x03", "\x05"]
+    n = 4 if ctx.tier == "quick" else 5
+    strs = [""] + ["".join(t) for k in range(1, n + 1) for t in itertools.product(alpha, repeat=k)]
+    if "Model/Codec.v" not in ctx.build.ok_files:
+        return
+    defs = "Definition o_eqb (a b : option str) := match a, b with Some x, Some y => str_eqb x y | None, None => true | _, _ => false end.\n"
+    hangs = 0
+    for name, (pyname, model) in CODEC_FNS.items():
+        chunks = [strs[i:i + 400] for i in range(0, len(strs), 400)]
+        res = [r for ch in impl.pmap(_codec_call, [(name, c) for c in chunks], chunksize=1) for r in ch]
+        cases, keep = [], []
+        for s, r in zip(strs, res):
+            ctx.count(1, "codec/" + name)
+            if name in ("resolve_backspaces", "resolve_all") and s.startswith("\x08"):
+                hangs += r == "HANG"
+                continue  # outside the model: text[:-1] wraps around when the BS is the first character (the parser never writes that)
+            if r == "HANG":
+                ctx.broke(f"ParserHelper.{pyname} does not return on {s!r}")
+                continue
+            cases.append((core.cstr(s), "None" if r is None else f"(Some {core.cstr(r)})"))
+            keep.append(s)
+        bad = core.coq_mismatches(["PV.Base.Str", "PV.Model.Codec"], defs + f"Definition f := {model}.\n", "f", cases, "c02codec", eqb="o_eqb", shard=400)
+        ctx.corr_cases += len(cases)
+        for i in bad[:4]:
+            ctx.broke(f"model/implementation correspondence (Model/Codec.v {name}) differs on {keep[i]!r}")
+    ctx.unit("codec", strings=len(strs), functions=len(CODEC_FNS), hangs_on_leading_backspace=hangs)
+    # the kernel's theorem on the implementation: random well-formed piece lists
+    from pymarkdown.general.parser_helper import ParserHelper as PH
+    rnd = random.Random(ctx.seed)
+    lit = ["a", "b c", "\x08", "x\x07", "\x03y", "\x02", "\\", "*", ""]
+    for _ in range(400 if ctx.tier == "quick" else 4000):
+        enc, src, out = "", "", ""
+        for _ in range(rnd.randint(1, 6)):
+            k = rnd.randrange(4)
+            if k == 0:
+                s = rnd.choice(lit)
+                enc += PH.escape_special_characters(s); src += s; out += s
+            elif k == 1:
+                c = rnd.choice("*_\\[a")
+                enc += "\\\x08" + c; src += "\\" + c; out += c
+            elif k == 2:
+                o, r = rnd.choice(["&amp;", "&#35;", "x"]), rnd.choice(["&", "#", "yz"])
+                enc += PH.create_replacement_markers(o, r); src += o; out += r
+            else:
+                o = rnd.choice(["&#0;", "q"])
+                enc += PH.create_replace_with_nothing_marker(o); src += o
+        ctx.count(1, "codec/pieces")
+        if PH.remove_all_from_text(enc) != src or PH.resolve_all_from_text(enc) != out:
+            ctx.violation("codec", {"encoded": enc}, f"remove_all gives {PH.remove_all_from_text(enc)!r} (source {src!r}), resolve_all gives {PH.resolve_all_from_text(enc)!r} (text {out!r})", group="codec")
+
+
 def run(ctx):
-    ctx.prove("Props/C02.v", ["Model/Splice.v", "Proofs/SpliceProofs.v"])
+    ctx.prove("Props/C02.v", ["Model/Splice.v", "Proofs/SpliceProofs.v", "Model/Codec.v", "Proofs/CodecProofs.v"])
     sp = c04.spaces(ctx)
     em = sp.pop("emphasis-runs(7)")
     sp["emphasis-runs"] = em if ctx.tier == "quick" else gen.sample(em, 60000, 99)
@@ -83,6 +176,8 @@ def run(ctx):
         ctx.corr_cases += len(cases)
         for b in bad[:5]:
             ctx.broke(f"model/implementation correspondence (Model/Splice.v strip/reinsert) differs on {pdocs[b]!r}: implementation regenerates {pres[b][1]!r}")
+    # ---- the marker codec: Model/Codec.v against ParserHelper on every string over the marker alphabet
+    _codec(ctx)
     ctx.trusted += [
         "direct calls TokenizedMarkdown.transform and TransformToMarkdown.transform; the identity oracle regenerate(parse d) == d",
         "correspondence: Model/Splice.v strip/reinsert with the pragma recogniser of Model/Pragma.v (vm_compute) vs the regenerated text of every document of <= 4 (quick) / 5 (thorough) lines over {text, blank, pragma, alternate-prefix pragma, list item}",
